@@ -13,6 +13,7 @@ PROPS = {
     "C05": dict(
         modules=["contracts.number", "contracts.strings", "contracts.reader"],
         title="EoReader chunked-reading model",
+        extra=extras.c05,
         trusted=["cp1252 decode table D (external codec; pointwise, total, stateless)"],
     ),
     "C06": dict(
